@@ -38,6 +38,7 @@ func verifyFunc(p *Program, c *Contract, prop string) (res *FuncResult) {
 		return
 	}
 	x := newExec(p, fn, c, prop)
+	x.noMerge = c.Opts["merge"] == ""
 	defer func() {
 		if r := recover(); r != nil {
 			if u, ok := r.(unsupported); ok {
